@@ -22,6 +22,11 @@ fn is_reserved_char(c: char) -> bool {
     )
 }
 
+/// True for characters that change both when lowercased and when uppercased
+fn is_titlecase(c: char) -> bool {
+    c.to_lowercase().next() != Some(c) && c.to_uppercase().next() != Some(c)
+}
+
 fn is_reserved_filename(name: &str) -> bool {
     matches!(
         name.to_ascii_uppercase().as_str(),
@@ -121,7 +126,7 @@ pub fn string_to_filename(string: &str, suffix: &str) -> String {
             let mut digit = 0;
             let mut bit = 1;
             for c in chunk {
-                if c.to_lowercase().next() != Some(*c) {
+                if c.to_lowercase().next() != Some(*c) && !is_titlecase(*c) {
                     digit |= bit
                 }
                 bit <<= 1;
@@ -137,6 +142,13 @@ pub fn string_to_filename(string: &str, suffix: &str) -> String {
     for (i, c) in string.chars().enumerate() {
         if i == 0 && c == '.' {
             filename.push_str("%2E");
+        } else if is_titlecase(c) {
+            // neither the upper nor the lower case form (e.g. ǅ next to Ǆ and ǆ); one
+            // case bit cannot tell three forms apart, so spell these out byte by byte
+            let mut buf = [0; 4];
+            for byte in c.encode_utf8(&mut buf).bytes() {
+                filename.push_str(format!("%{byte:02X}").as_str());
+            }
         } else if !is_reserved_char(c) {
             filename.push(c);
         } else {
